@@ -148,8 +148,9 @@ TExit == /\ Is("exit") /\ UNCHANGED aux
 
 \* events of other state machines (UTXO bookkeeping, parallel evaluation) interleave with the run's and are validated by
 \* Trace_Utxo / Trace_Par: here they are stuttering steps
-Foreign == {"spend", "create", "dump_row", "bal_row", "eval"}
-TForeign == l <= N /\ Ev[l].ev \in Foreign /\ l' = l + 1 /\ UNCHANGED <<vars, aux>>
+Known == {"cmd", "tmp_create", "idx_rec", "idx_keep", "idx_done", "files", "on_start", "lookup", "fetched", "read_err", "nofile",
+          "verify", "deliver", "on_complete", "rename", "renamed", "completed", "exit"}
+TForeign == l <= N /\ Ev[l].ev \notin Known /\ l' = l + 1 /\ UNCHANGED <<vars, aux>>
 
 TNext == \/ TForeign \/ TBegin \/ TTmpCreate \/ TTmpSilent \/ TScan \/ TKeep \/ TDone \/ TFiles \/ TOnStart \/ TLookup
          \/ TFetched \/ TReadErr \/ TVerify \/ TDeliver \/ TLeaveLoop \/ TOnComplete \/ TRename \/ TRenamed
